@@ -7,27 +7,44 @@ from vlib import core
 TRUST = ("Lean 4.33 kernel; axioms at most propext/Classical.choice/Quot.sound (audited per run); "
          "hand-written models tied to the C++ by the exact correspondence harness (differential, generator-bounded); ")
 MANIFEST = dict(
-  text=("Theorems (Props/C13.lean) for all finite sets of integer points of every dimension and size: dominance = its definition; "
-        "fastNonDominatedSort model = rankSpec (one plus the highest rank among dominators) incl. duplicates, the loop reaches the empty front; "
-        "hvSpec (count of dominated unit cells = measure of the dominated region for integer points) is invariant under permutation, adding dominated or "
-        "duplicate points, monotone, sub-additive; HypervolumeCalculator2D model = hvSpec for every key-sorted order; WFG recursion = hvSpec for every tie "
-        "resolution of its sorts. Models and spec are tied to the real code by exact line-by-line correspondence on generated integer point sets "
-        "(2..6 objectives, ties, duplicates, dominated, collinear points, points equal to the reference in a coordinate, all k)."),
-  note=TRUST + "tied to the proved specs by exact correspondence only (no theorem about a model of their control flow): DCNonDominatedSort and the "
-       "size/dimension switch of nonDominatedSort, HypervolumeCalculator3D, HOY, HypervolumeContribution2D/3D/MD (against hvSpec S - hvSpec (S without p)), "
-       "HypervolumeSubsetSelection2D (against the brute-force maximum over k-subsets). HypervolumeContributionMD computes exp(sum(log(ref-p))): its "
-       "results are compared after rounding to the nearest integer (tolerance 1e-6), everything else exactly. Theorems are about integer coordinates. "
-       "In the WFG model the rank-1 filter of limitSet is written as 'has no dominator' (equal to rank 1 by rankSpec_eq_one_iff + fastSort_eq_rankSpec); "
-       "WFG is exercised on sets of at most 12 points (it is exponential in the number of tied points).",
-  technique="Lean 4 proofs by induction / well-founded recursion over point lists + exact differential correspondence with the C++ (ASan/UBSan)",
-  design="§6 C13")
+  text=("Theorems (Props/C13.lean) for all finite sets of integer points of every size (and, where stated, every dimension): dominance = its definition; "
+        "rankSpec = one plus the highest rank among the dominators (unique solution); fastNonDominatedSort model = rankSpec; the divide-and-conquer sort model "
+        "(sweepA, sweepB, median splits, ndHelperA/ndHelperB recursion, sort/unique/lower_bound front end) = rankSpec for every dimension m >= 2, hence "
+        "nonDominatedSort = rankSpec whatever its size/dimension switch selects; hvSpec (count of dominated unit cells = measure of the dominated region for integer "
+        "points) is invariant under permutation, adding dominated or duplicate points, translation, homogeneous of degree m under scaling, monotone, sub-additive; "
+        "HypervolumeCalculator2D model = hvSpec for every key-sorted order; HypervolumeCalculator3D model (sweep with the std::map staircase) = hvSpec for every "
+        "z-sorted order incl. boundary points; WFG recursion = hvSpec for every tie resolution of its sorts; the HypervolumeCalculator front end = hvSpec in 2, 3 "
+        "and >= 5 objectives; HypervolumeContribution2D model = hvSpec S - hvSpec (S without p) per point for mutually non-dominated sets (duplicates allowed, every "
+        "outcome of the sorts); HypervolumeContributionMD model (clipping, rank-1 compaction loop, box volume minus restricted hypervolume) = the same for all sets, "
+        "end to end with the modelled nonDominatedSort and front end for m != 4; k-smallest/k-largest selection returns min(k,n) sorted pairs dominating the rest, "
+        "the first being an arg-min/arg-max (every outcome of the unstable sort); HypervolumeSubsetSelection2D model: the deque upper envelope equals the running maximum, "
+        "the dynamic programme value equals the best chain area = hvSpec, back-tracking + fill-up return exactly k points of maximal hypervolume among all sub-lists of at "
+        "most k points (operator-level theorem for the intended lexicographic comparator; the comparator of the C++ is regenerated from the source on every run). "
+        "Rational coordinates: hvQ/rankQ via a common denominator are well defined, agree with hvSpec/rankSpec on integers, rankQ satisfies the rank definition for the "
+        "rational dominance, nonDominatedSort on the scaled points returns rankQ. All models are tied to the real code by exact line-by-line correspondence on generated "
+        "integer point sets (2..6 objectives, ties, duplicates, dominated, collinear points, points on the boundary of the reference box, extreme magnitudes for the "
+        "sorts, the three arms of the sort switch, all k; subset selection is compared by the selected indices), each with an independent oracle in the harness."),
+  note=TRUST + "executable models tied by exact correspondence + oracle only (no theorem model = spec): HypervolumeCalculatorMDHOY (Model/HOY.lean; therefore the front end and "
+       "HypervolumeContributionMD in exactly 4 objectives are `_partial`), HypervolumeContribution3D (Model/Contrib3D.lean: x-y front, box lists, cutBoxesOnTheLeft/Right; compared "
+       "with hvSpec S - hvSpec (S without p) on every run). These routines return only their result, so the tie of their internal states to the C++ is through the results. "
+       "HypervolumeContributionMD computes exp(sum(log(ref-p))): its results are compared after rounding to the nearest integer (tolerance 1e-6), everything else exactly. "
+       "Theorems are about integer coordinates and lifted to rationals by the common-denominator argument (Lemmas/Scale.lean, Lemmas/RatLift.lean); the C++ runs on doubles, the "
+       "correspondence uses integer-valued doubles. The 1e-10 tolerances in upperEnvelope are modelled as exact comparisons (quotients of small integers). The subset-selection "
+       "operator theorem is for the intended comparator `f2 < rhs.f2`; the C++ currently has `f2 < rhs.f1` (open finding F-C13-4 / C13-SSP-LEXLESS: std::sort overflow with > 16 "
+       "points of equal first coordinate); on inputs with pairwise distinct first coordinates both comparators agree, and for <= 16 points the model reproduces libstdc++'s "
+       "insertion sort under the real comparator. In the WFG model the rank-1 filter of limitSet is written as 'has no dominator'; WFG is exercised on at most 12 points. "
+       "The switch of nonDominatedSort is modelled as n < 3^(m+1) for log(n)/log(3) < m+1 (unobservable: both branches are proved equal to rankSpec).",
+  technique="Lean 4 proofs by induction / loop invariants / well-founded recursion over point lists + exact differential correspondence with the C++ (ASan/UBSan)",
+  design="§6 C13, §14")
 
 FINISH = dict(level="proof",
               rule="integer point sets from one SplitMix64 stream: dims 2..6, sizes 0..40 (quick) / ..300 (thorough), coordinates from small grids "
-                   "(incl. negative values) with ties, duplicates, dominated and collinear points; reference points weakly above all points; "
+                   "(incl. negative values) with ties, duplicates, dominated and collinear points; sorts also on affine images with magnitudes up to 2^51 and at the "
+                   "sizes 3^(m+1)-2..3^(m+1)+30 of the algorithm switch (one n > 5000 case in the thorough tier); subset selection up to 40 (120) points; "
+                   "reference points weakly above all points; "
                    "a case is non-trivial if it has >= 3 points and (for sort/hv) at least one tie or dominated pair; distinct = distinct op text")
 
-LAKE_TARGETS = ["SharkVerif.Props.C13", "drv_c13"]
+LAKE_TARGETS = ["SharkVerif.Props.C13", "drv_c13"]   # Props imports Lemmas/{FastSort,Hypervolume,HV3D,Contrib,DCFront,Subset2D,RatLift}
 REPO_SOURCES = ["src/Core/Random.cpp"]
 
 
@@ -293,7 +310,8 @@ def nontrivial(line):
 
 def run(ctx):
     ctx.trusted += ["correspondence harness harness/c13.cpp + generator checks/c13.py",
-                    "hand-written models Model/Pareto.lean, Model/Hypervolume.lean (the C++ is modelled, not translated)",
+                    "hand-written models Model/{Pareto,Hypervolume,HV3D,HOY,DCSort,Contrib,Contrib3D,Subset2D}.lean (the C++ is modelled, not translated; "
+                    "only the comparator of HypervolumeSubsetSelection2D::Point is machine-translated, translate/ssp_point_less.py)",
                     "ASan/UBSan runtime for the real code's memory safety (not a theorem)"]
     ctx.assumptions += ["points have integer coordinates (exactly representable doubles); all vectors of a call have equal dimension",
                         "the reference point is weakly dominated by every point (C++ documented precondition)",
